@@ -343,6 +343,105 @@ func c01BaseCtx(tokens []string, conc int, b Bounds) *Scenario {
 	}
 }
 
+// c01PushCollide: on a push-enabled server the ids of the server's own callbacks and the ids chosen by
+// the client are independent number spaces. While a callback with id P is unanswered the client sends
+// calls (single and in a batch) that carry the same id text P: they are requests, not replies.
+func c01PushCollide(b Bounds) *Scenario {
+	return &Scenario{
+		Name:   "push-enabled: client calls carrying the id of an unanswered server callback",
+		Params: map[string]any{"history": []string{"call 100 (its handler issues a Callback, push id P)", "call with id P", "batch [call with id P+1000, notification]", "reply to the callback", "call 100 completes"}},
+		Bounds: b,
+		New: func() *Instance {
+			h := &seqHarness{gates: NewGates()}
+			body := func() {
+				lib, peer, pipe := NewPipe(PipeOpts{Name: "srv", CloseUnblocksRecv: true})
+				h.pipe, h.peer = pipe, peer
+				srv := jrpc2.NewServer(anyAssigner{h.handler()}, &jrpc2.ServerOptions{Concurrency: 4, AllowPush: true})
+				srv.Start(lib)
+				vs.GoNamed("peer", func() {
+					defer peer.Close()
+					peer.Send([]byte(`{"jsonrpc":"2.0","id":100,"method":"q0"}`))
+					pushID := ""
+					for pushID == "" {
+						rec, ok := peer.Recv()
+						if !ok {
+							return
+						}
+						ms, _, _ := parseRecord(rec)
+						for _, m := range ms {
+							if m.Has("method") && m.Has("id") {
+								pushID = m.ID()
+							}
+						}
+					}
+					vs.Note("push-id", pushID)
+					peer.Send([]byte(fmt.Sprintf(`{"jsonrpc":"2.0","id":%s,"method":"c1"}`, pushID)))
+					vs.AwaitQuiescence()
+					peer.Send([]byte(fmt.Sprintf(`[{"jsonrpc":"2.0","id":%s,"method":"c2"},{"jsonrpc":"2.0","method":"n2"}]`, pushID)))
+					vs.AwaitQuiescence()
+					vs.Note("before-reply")
+					peer.Send([]byte(fmt.Sprintf(`{"jsonrpc":"2.0","id":%s,"result":"cbreply"}`, pushID)))
+					vs.AwaitQuiescence()
+					vs.Note("quiet")
+				})
+				srv.WaitStatus()
+			}
+			check := func(x *vs.Exec) []Viol {
+				v := genericRules(x, nil)
+				if x.Outcome != "ok" {
+					return v
+				}
+				pi := findEv(x, 0, "push-id")
+				if pi < 0 {
+					return append(v, Viol{"C01.R2", "the handler's Callback was never transmitted"})
+				}
+				pid := x.Log[pi].Arg(0)
+				toks := map[string]string{}
+				runs := map[string]int{}
+				for _, e := range x.Log {
+					if e.K == "h_exit" {
+						toks[e.Arg(0)] = e.Arg(2)
+						runs[e.Arg(0)]++
+					}
+				}
+				Hit("C01.R8")
+				for _, m := range []string{"q0", "c1", "c2", "n2"} {
+					if runs[m] != 1 {
+						v = append(v, Viol{"C01.R8", fmt.Sprintf("handler of %s ran %d times, want once (client ids and callback ids are independent)", m, runs[m])})
+					}
+				}
+				// responses: one per call, carrying the token of its own invocation
+				got := map[string][]string{}
+				before := findEv(x, 0, "before-reply")
+				for _, o := range outEvents(x, "srv") {
+					ms, _, _ := parseRecord([]byte(o.Raw))
+					for _, m := range ms {
+						if m.Has("method") {
+							continue // the pushed callback request
+						}
+						got[m.ID()] = append(got[m.ID()], m.Str("result"))
+						if m.ID() == "100" && o.At < before {
+							v = append(v, Viol{"C09.R4", "call 100 was answered before the peer had replied to the callback its handler awaits: " + o.Raw})
+						}
+					}
+				}
+				Hit("C01.R2")
+				want := map[string][]string{"100": {`"` + toks["q0"] + `"`}, pid: {`"` + toks["c1"] + `"`, `"` + toks["c2"] + `"`}}
+				for id, w := range want {
+					if fmt.Sprint(got[id]) != fmt.Sprint(w) {
+						v = append(v, Viol{"C01.R2", fmt.Sprintf("responses with id %s: got %v, want %v (each call answered once with the outcome of its own handler)", id, got[id], w)})
+					}
+				}
+				if i := findEv(x, 0, "cb_ret", "q0"); i < 0 || x.Log[i].Arg(1) != "ok" || x.Log[i].Arg(2) != `"cbreply"` {
+					v = append(v, Viol{"C09.R5", "the callback did not return the peer's reply"})
+				}
+				return v
+			}
+			return &Instance{Body: body, Check: check}
+		},
+	}
+}
+
 func c01Seq(tokens []string, conc int, b Bounds) *Scenario {
 	return &Scenario{
 		Name:   fmt.Sprintf("seq{%s} conc=%d", tokensName(tokens), conc),
@@ -361,16 +460,16 @@ func c01Seq(tokens []string, conc int, b Bounds) *Scenario {
 	}
 }
 
-var c01Alphabet = []string{"c", "f", "n", "[cc]", "[cn]", "[nc]", "[nn]", "[n]", "[c]", "u", "v", "[cx]", "[yc]", "x", "[cd]", "i", "z", "[zz]"}
+var c01Alphabet = []string{"c", "f", "n", "[cc]", "[cn]", "[nc]", "[nn]", "[n]", "[c]", "u", "v", "[cx]", "[yc]", "x", "[cd]", "i", "z", "[zz]", "[cv]", "[vn]"}
 
 func c01Scenarios(tier string) []*Scenario {
 	var out []*Scenario
-	running := map[string]bool{"z": true, "[zz]": true, "c": true, "f": true, "n": true, "[cc]": true, "[cn]": true, "[nc]": true, "[nn]": true, "[n]": true, "[c]": true, "[cx]": true, "[yc]": true, "[cd]": true}
+	running := map[string]bool{"z": true, "[zz]": true, "c": true, "f": true, "n": true, "[cc]": true, "[cn]": true, "[nc]": true, "[nn]": true, "[n]": true, "[c]": true, "[cx]": true, "[yc]": true, "[cd]": true, "[cv]": true, "[vn]": true}
 	if tier == "quick" {
 		for _, a := range c01Alphabet {
 			out = append(out, c01Seq([]string{a}, 2, Bounds{2, -1, 1}))
 		}
-		for _, a := range []string{"c", "n", "[cn]", "[nc]", "[cc]", "z"} {
+		for _, a := range []string{"c", "n", "[cn]", "[nc]", "[cc]", "z", "[cv]"} {
 			for _, b := range c01Alphabet {
 				out = append(out, c01Seq([]string{a, b}, 2, Bounds{1, -1, 0}))
 			}
@@ -385,6 +484,7 @@ func c01Scenarios(tier string) []*Scenario {
 		for _, p := range [][]string{{"g", "n", "c"}, {"g", "c", "c"}} {
 			out = append(out, c01BaseCtx(p, 1, Bounds{1, -1, 0}))
 		}
+		out = append(out, c01PushCollide(Bounds{1, 1, 0}))
 		return out
 	}
 	for _, a := range c01Alphabet {
@@ -412,6 +512,7 @@ func c01Scenarios(tier string) []*Scenario {
 		out = append(out, c01BaseCtx(p, 1, Bounds{2, -1, 0}))
 	}
 	out = append(out, c01BaseCtx([]string{"g", "g", "n", "c"}, 2, Bounds{2, -1, 0}), c01BaseCtx([]string{"c", "n", "c"}, 2, Bounds{2, -1, 0}))
+	out = append(out, c01PushCollide(Bounds{2, 2, 0}))
 	sub := []string{"c", "n", "[cn]", "[cc]", "d", "y", "z"}
 	for _, a := range sub {
 		for _, b := range sub {
